@@ -75,7 +75,7 @@ func c05Order(c *Ctx, prop string) {
 		call, idx := callOfValue(src)
 		return call == rcall && idx == 1
 	}
-	fDnsdb := c.Field("dnsserver", "FBDNSDB", "dnsdb")
+	fDnsdb := c.tabledFieldByName("dnsserver", "FBDNSDB", "dnsdb")
 	fPath := c.Field("dnsserver", "DBConfig", "Path")
 	fCfg := c.Field("dnsserver", "FBDNSDB", "dbConfig")
 	ls := computeLockset(fn)
@@ -483,7 +483,7 @@ func c05Pin(c *Ctx) {
 		}
 	}
 	walk(serve)
-	spec := &GuardSpec{Name: "FBDNSDB.dnsdb", Field: c.Field("dnsserver", "FBDNSDB", "dnsdb"), Mutex: c.mutexName("dnsserver", "FBDNSDB", "reloadMu")}
+	spec := &GuardSpec{Name: "FBDNSDB.dnsdb", Field: c.tabledFieldByName("dnsserver", "FBDNSDB", "dnsdb"), Mutex: c.mutexName("dnsserver", "FBDNSDB", "reloadMu")}
 	var offenders []string
 	nreach := 0
 	var fns []*ssa.Function
